@@ -59,6 +59,8 @@ func sha(s string) string {
 func genConc(out *bufio.Writer, rng *rand.Rand, rounds int) int {
 	corpus := corpusFiles()
 	var jobs []concJob
+	var constWant []string // expected results known by construction, for jobs constIdx
+	var constIdx []int
 	// assemble jobs: shared configuration values, texts that exercise EQU maps and FOR expansion
 	cfgs := []gmars.SimulatorConfig{gmars.ConfigNOP94, gmars.ConfigKOTH88, gmars.ConfigNopNano}
 	var texts [][]byte
@@ -101,6 +103,28 @@ func genConc(out *bufio.Writer, rng *rand.Rand, rounds int) int {
 		fmt.Fprintf(&sb, "cnt equ %s+%s-%s+%s\ni for cnt\ndat i, cnt\nrof\nmov cnt, %s*%s+%s\n", a, a, a, b, c, c, b)
 		texts = append(texts, []byte(sb.String()))
 	}
+	// several EQUs whose text BEGINS with a reference to one shared EQU of three to seven tokens
+	// (a resolver that appends to a shared slice decides by map order which of them wins)
+	for i := 0; i < 16; i++ {
+		var sb strings.Builder
+		base := []string{"2*3+4", "1+2", "7-2*3+1", "2*2*2+1-3", "9", "1+1+1+1"}[rng.Intn(6)]
+		fmt.Fprintf(&sb, "base equ %s\n", base)
+		k := 2 + rng.Intn(4)
+		var uses []string
+		for j := 0; j < k; j++ {
+			nm := fmt.Sprintf("u%c", 'a'+j)
+			fmt.Fprintf(&sb, "%s equ base%s\n", nm, []string{"+1", "+2", "*3", "-4+5", "+6*7", ""}[rng.Intn(6)])
+			uses = append(uses, nm)
+		}
+		for j := 0; j+1 < len(uses); j += 2 {
+			fmt.Fprintf(&sb, "dat #%s, #%s\n", uses[j], uses[j+1])
+		}
+		fmt.Fprintf(&sb, "dat #%s, #base\n", uses[len(uses)-1])
+		if rng.Intn(2) == 0 {
+			fmt.Fprintf(&sb, "i for %s-%s+1\nmov i, %s\nrof\n", uses[0], uses[0], uses[1])
+		}
+		texts = append(texts, []byte(sb.String()))
+	}
 	for i, t := range texts {
 		t, cfg := t, cfgs[i%len(cfgs)]
 		jobs = append(jobs, concJob{fmt.Sprintf("asm%d", i), func() string {
@@ -110,6 +134,57 @@ func genConc(out *bufio.Writer, rng *rand.Rand, rounds int) int {
 			}
 			return wresult(w, nil, "")
 		}})
+	}
+	// predefined constants under configurations that differ in exactly one field, assembled one
+	// after the other in one process: the expected warrior is known by construction
+	{
+		base := gmars.NewQuickConfig(gmars.ICWS94, 8000, 8000, 80000, 100)
+		variants := []gmars.SimulatorConfig{base}
+		for _, d := range []uint64{0, 1, 300, 101} {
+			v := base
+			v.Distance = gmars.Address(d)
+			variants = append(variants, v)
+		}
+		for _, l := range []uint64{0, 1, 99, 200} {
+			v := base
+			v.Length = gmars.Address(l)
+			variants = append(variants, v)
+		}
+		for _, pr := range []uint64{1, 7999, 8001} {
+			v := base
+			v.Processes = gmars.Address(pr)
+			variants = append(variants, v)
+		}
+		for _, cs := range []uint64{8001, 7999, 400} {
+			v := base
+			v.CoreSize, v.ReadLimit, v.WriteLimit = gmars.Address(cs), gmars.Address(cs), gmars.Address(cs)
+			variants = append(variants, v)
+		}
+		v88 := base
+		v88.Mode = gmars.ICWS88
+		variants = append(variants, v88, base)
+		src := []byte("dat #CORESIZE-1, #MAXLENGTH\ndat #MAXPROCESSES, #MINDISTANCE\n")
+		for i, cfg := range variants {
+			cfg := cfg
+			if cfg.Length < 2 {
+				continue
+			}
+			m := uint64(cfg.CoreSize)
+			want := gmars.WarriorData{Code: []gmars.Instruction{
+				{Op: gmars.DAT, OpMode: gmars.F, AMode: gmars.IMMEDIATE, A: gmars.Address(m - 1), BMode: gmars.IMMEDIATE, B: gmars.Address(uint64(cfg.Length) % m)},
+				{Op: gmars.DAT, OpMode: gmars.F, AMode: gmars.IMMEDIATE, A: gmars.Address(uint64(cfg.Processes) % m), BMode: gmars.IMMEDIATE, B: gmars.Address(uint64(cfg.Distance) % m)},
+			}}
+			wantS := wresult(want, nil, "")
+			jobs = append(jobs, concJob{fmt.Sprintf("const%d", i), func() string {
+				w, err := gmars.CompileWarrior(bytes.NewReader(src), cfg)
+				if err != nil {
+					return "err"
+				}
+				return wresult(w, nil, "")
+			}})
+			constWant = append(constWant, wantS)
+			constIdx = append(constIdx, len(jobs)-1)
+		}
 	}
 	// battle jobs sharing WarriorData and configuration values
 	var shared []*gmars.WarriorData
@@ -147,10 +222,15 @@ func genConc(out *bufio.Writer, rng *rand.Rand, rounds int) int {
 	for i, j := range jobs {
 		seq[i] = j.run()
 	}
+	// results known by construction (an earlier job in the same process must not change them)
+	for k, ji := range constIdx {
+		fmt.Fprintf(out, "Y y%d history %s | %s ## %s\n", n, jobs[ji].desc, sha(constWant[k]), sha(seq[ji]))
+		n++
+	}
 	// repeatability (Go map iteration order differs from run to run)
 	for i, j := range jobs {
 		same := seq[i]
-		for k := 0; k < 8; k++ {
+		for k := 0; k < 14; k++ {
 			if r := j.run(); r != seq[i] {
 				same = r
 				break
@@ -207,6 +287,31 @@ func genConc(out *bufio.Writer, rng *rand.Rand, rounds int) int {
 		got := fmt.Sprintf("%v c=%d core=%s q0=%v", res, sim.CycleCount(), coreDigest(sim), sim.GetWarrior(0).Queue())
 		fmt.Fprintf(out, "Y y%d alias mutate-after-add | %s ## %s\n", n, sha(ref), sha(got))
 		n++
+		// one variable reused for two AddWarrior calls on one simulator, changed in between
+		{
+			wa, wb := genWarrior(rng, m, 6), genWarrior(rng, m, 6)
+			for len(wb.Code) < len(wa.Code) {
+				wb.Code = append(wb.Code, wb.Code[0])
+			}
+			wb.Code = wb.Code[:len(wa.Code)]
+			wb.Start, wb.Name, wb.Author = wa.Start, wa.Name, wa.Author
+			refAB := battleResult(cfg, []*gmars.WarriorData{wa.Copy(), wb.Copy()}, []uint64{3, uint64(m / 2)})
+			sim2, _ := gmars.NewSimulator(cfg)
+			sharedW := *wa.Copy()
+			sim2.AddWarrior(&sharedW)
+			if i%2 == 0 {
+				copy(sharedW.Code, wb.Code)
+			} else {
+				sharedW = *wb.Copy()
+			}
+			sim2.AddWarrior(&sharedW)
+			sim2.SpawnWarrior(0, 3)
+			sim2.SpawnWarrior(1, gmars.Address(m/2))
+			res2 := sim2.Run()
+			got2 := fmt.Sprintf("%v c=%d core=%s q0=%v q1=%v", res2, sim2.CycleCount(), coreDigest(sim2), sim2.GetWarrior(0).Queue(), sim2.GetWarrior(1).Queue())
+			fmt.Fprintf(out, "Y y%d alias one-variable-two-adds | %s ## %s\n", n, sha(refAB), sha(got2))
+			n++
+		}
 		// the other direction
 		w2 := orig.Copy()
 		before := cellsStr(w2.Code)
